@@ -127,6 +127,7 @@ fn worker(prop: &str, tier: Tier, seed: u64, index: u64, of: u64) {
     let mut samples = vec![];
     let mut sample_cases = vec![];
     let mut violations = 0;
+    let mut reported_oracles = std::collections::BTreeSet::new();
     let mut runs_done = 0;
     let mut truncated = false;
     let mut run = match &counter {
@@ -175,7 +176,10 @@ fn worker(prop: &str, tier: Tier, seed: u64, index: u64, of: u64) {
                             });
                         }
                     }
-                    if let Some(f) = findings.first() {
+                    // one minimised report per oracle and worker is enough (the driver keeps
+                    // one per oracle anyway)
+                    if let Some(f) = findings.iter().find(|f| !reported_oracles.contains(&f.oracle)) {
+                        reported_oracles.insert(f.oracle.clone());
                         violations += 1;
                         let (min, fin) = minimize::minimize(c, f, 600);
                         emit(&WorkerMsg::Violation {
